@@ -89,8 +89,9 @@ Proof. induction l as [|x l IH]; simpl; auto. rewrite IH. reflexivity. Qed.
 
 Lemma missed_agree_shown s : missed_agree s (s_missed s) (shown_missed s) = true.
 Proof.
-  unfold missed_agree, shown_missed. destruct (s_keep s); cbn [negb andb]; auto.
-  rewrite andb_false_r. destruct (is1d s); [destruct (all_exact s)|]; auto using all2_xeqb_refl.
+  unfold missed_agree, shown_missed. destruct (s_keep s); cbn [negb andb].
+  - rewrite andb_false_r. destruct (is1d s); [destruct (all_exact s)|]; auto using all2_xeqb_refl.
+  - destruct (is1d s); cbn [andb]; auto using all2_xeqb_refl.
 Qed.
 
 Lemma check_step_refl p : check_step p (e_step p) = true.
